@@ -9,6 +9,8 @@ from .. import terms as T
 
 from pyjelly import jelly  # noqa: E402
 from pyjelly.integrations.generic import parse as gparse  # noqa: E402
+from pyjelly.integrations.generic import serialize as gser  # noqa: E402
+from pyjelly.integrations.rdflib import serialize as rser  # noqa: E402
 from pyjelly.integrations.rdflib import parse as rparse  # noqa: E402
 from pyjelly.options import LookupPreset, StreamParameters, StreamTypes  # noqa: E402
 from pyjelly.parse.ioutils import get_options_and_frames  # noqa: E402
@@ -265,6 +267,49 @@ def type_pairs(ctx):
                                                         "spec_allows": want_ok, "parse": res})
 
 
+def late_params_case(ctx, rng):
+    """The caller builds the stream first and sets the stream parameters afterwards (SerializerOptions is a mutable
+    dataclass; the options row is written with the first statement): the reader is told the parameters the stream was
+    WRITTEN with - its name, flags, version - just as the framing and the declarations follow them."""
+    from pyjelly.options import StreamParameters
+    integ = rng.choice(["generic", "rdflib"])
+    phys = rng.choice([1, 2])
+    cfg = {"integration": integ, "physical": phys, "logical": pj.FLAT_LOGICAL[phys], "delimited": True, "preset": (16, 8, 8),
+           "frame_size": 250, "generalized": False, "rdf_star": False, "ns": False, "stream_name": ""}
+    options = pj.make_options(cfg)
+    stream = pj.make_stream(cfg, options)
+    late = dict(stream_name=rng.choice(STREAM_NAMES[1:]), generalized_statements=rng.random() < .5, rdf_star=rng.random() < .5,
+                namespace_declarations=rng.random() < .5, delimited=True)
+    stream.options.params = StreamParameters(**late)
+    st = tuple([("iri", "http://e/s"), ("iri", "http://e/p"), ("bnode", "b")] + ([("default",)] if phys == 2 else []))
+    mod = gser if integ == "generic" else rser
+    conv = T.stmt_to_generic if integ == "generic" else T.stmt_to_rdflib
+    out = io.BytesIO()
+    try:
+        if late["namespace_declarations"]:
+            # (declarations come from a sink / store, not from a bare statement generator)
+            data_in = pj.generic_sink_of([st], [("ex", "http://e/")]) if integ == "generic" else \
+                pj.rdflib_store_of([st], [("ex", "http://e/")], dataset=phys == 2)
+        else:
+            data_in = iter([conv(st)])
+        pj.write_frames(mod.stream_frames(stream, data_in), out, True)
+        o = next(r[1] for f in wire.dec_stream(out.getvalue(), True) for r in f["rows"] if r[0] == "options")
+    except Exception as e:  # noqa: BLE001
+        ctx.violation({"clause": "writer-raised", "cfg": cfg, "summary": f"parameters set after construction: {type(e).__name__}: {e}"})
+        return
+    ctx.observe("headers-compared")
+    ctx.observe("headers-with-parameters-set-after-construction")
+    want = {"stream_name": late["stream_name"], "generalized_statements": late["generalized_statements"], "rdf_star": late["rdf_star"],
+            "version": 2 if late["namespace_declarations"] else 1}
+    diffs = {k: (o[k], v) for k, v in want.items() if o[k] != v}
+    if diffs:
+        ctx.violation({"clause": "header-differs", "cfg": cfg, "diffs": T.to_json(diffs), "kind": "late-params",
+                       "summary": f"stream parameters assigned after the stream was built, before the first write: header fields "
+                                  f"(seen, in effect when writing): {diffs}"})
+    ctx.case(("late-params", integ, phys, sorted((k, str(v)) for k, v in late.items())), True,
+             sample={"part": "header", "kind": "parameters set after construction", "late": {k: str(v)[:20] for k, v in late.items()}})
+
+
 def flow_object_pairs(ctx):
     """The logical type requested through an explicit flow OBJECT (SerializerOptions.flow): the header states the flow's
     logical type, and a flow whose type the specification forbids for the stream class is refused."""
@@ -420,7 +465,10 @@ def run_shard(ctx):
         ctx.extra["tables_complete"] = True
     i = 0
     while not ctx.out_of_time():
-        header_case(ctx, ctx.rng(i))
+        if i % 6 == 5:
+            late_params_case(ctx, ctx.rng(i))
+        else:
+            header_case(ctx, ctx.rng(i))
         i += 1
         if ctx.tier == "quick" and i > 4000:
             break
